@@ -91,7 +91,7 @@ class BuildError(Exception):
 
 
 def build(driver, variant="fast", extra_sources=(), defines=(), includes=(),
-          with_db=True, repo=REPO, outdir=None, name=None, lib_objs=None):
+          with_db=True, repo=REPO, outdir=None, name=None, lib_objs=None, extra_objects=()):
     """Compile the real library (from the working tree) plus `driver`.
 
     Returns the path of the linked binary inside a scratch directory that is
@@ -124,11 +124,30 @@ def build(driver, variant="fast", extra_sources=(), defines=(), includes=(),
             if rc != 0:
                 raise BuildError("compile failed: %s\n%s" % (" ".join(cmd), err[-4000:]))
     exe = outdir / (name or (Path(driver).stem + "_" + variant))
-    link = [CXX] + VARIANTS[variant] + [str(o) for o in objs] + ["-o", str(exe)]
+    link = [CXX] + VARIANTS[variant] + [str(o) for o in objs] + [str(o) for o in extra_objects] + ["-o", str(exe)]
     p = subprocess.run(link, capture_output=True, text=True)
     if p.returncode != 0:
         raise BuildError("link failed:\n" + p.stderr[-4000:])
     return exe
+
+
+def build_gen_objects(sources, variant, includes=(), outdir=None, repo=REPO):
+    """Compile generated table sources on their own (two scopes generate files of the same name)."""
+    outdir = Path(outdir) if outdir else scratch()
+    outdir.mkdir(parents=True, exist_ok=True)
+    flags = list(COMMON_FLAGS) + VARIANTS[variant] + ["-I", str(VERIF / "shim"), "-I", str(repo / "src")]
+    for inc in includes:
+        flags += ["-I", str(inc)]
+    jobs, objs = [], []
+    for i, s in enumerate(sources):
+        o = outdir / ("gen%02d_%s.o" % (i, Path(s).stem))
+        objs.append(o)
+        jobs.append(([CXX] + flags + ["-c", str(s), "-o", str(o)], o))
+    with cf.ThreadPoolExecutor(max_workers=NCPU) as ex:
+        for cmd, rc, err in ex.map(_compile_one, jobs):
+            if rc != 0:
+                raise BuildError("compile failed: %s\n%s" % (" ".join(cmd), err[-4000:]))
+    return objs
 
 
 def build_lib_objs(variant, repo=REPO, with_db=True, outdir=None, defines=()):
